@@ -2371,6 +2371,12 @@ def BHJM_cylinder_segment(
     # transform dim deg->rad
     phi1 = phi1 / 180 * np.pi
     phi2 = phi2 / 180 * np.pi
+    # section angles are periodic. The inside/surface masks below compare with observer angles
+    # in [-2pi, 2pi] only: shift sections outside of this window back by full turns
+    outside = (phi1 < -2 * np.pi) | (phi2 > 2 * np.pi)
+    turns = np.where(outside, np.ceil(phi1 / (2 * np.pi)) * 2 * np.pi, 0.0)
+    phi1 = phi1 - turns
+    phi2 = phi2 - turns
     dim = np.array([r1, r2, phi1, phi2, z1, z2]).T
 
     # transform obs_pos to Cy CS --------------------------------------------
